@@ -310,3 +310,38 @@ def op_gates(case):
         except Exception as e:  # noqa: BLE001
             outs.append({"error": "%s: %s" % (type(e).__name__, str(e)[:200])})
     return {"outs": outs}
+
+
+@register("loops")
+def op_loops(case):
+    """build the event graph exactly as pv_to_puml_string does, call the real detect_loops and project the nesting"""
+    from copy import deepcopy
+    from tel2puml.events import create_graph_from_events
+    from tel2puml.loop_detection.detect_loops import detect_loops
+    from tel2puml.loop_detection.loop_types import LoopEvent
+    from tel2puml.pv_to_puml.data_ingestion import update_and_create_events_from_clustered_pvevents
+    from tel2puml.tel2puml_types import DUMMY_START_EVENT, DUMMY_END_EVENT
+    seed_uuid(case.get("uuid_seed", 0))
+    seqs = render_jobs(case["jobs"], case.get("present", {}))
+    events = update_and_create_events_from_clustered_pvevents(seqs, add_dummy_start=True)
+    g0 = create_graph_from_events(deepcopy(events).values())
+    inp = {"types": sorted({n.event_type for n in g0.nodes}),
+           "edges": sorted([a.event_type, b.event_type] for a, b in g0.edges)}
+
+    def proj(g, top):
+        nodes, subs = [], []
+        for n in g.nodes:
+            if isinstance(n, LoopEvent):
+                kind = "loop"
+            elif n.event_type == DUMMY_END_EVENT or (n.event_type == DUMMY_START_EVENT and not top) \
+                    or str(n.event_type).startswith("DUMMY_BREAK"):
+                kind = "dummy"
+            else:
+                kind = "event"
+            nodes.append({"id": n.uid, "ty": n.event_type, "kind": kind})
+            if isinstance(n, LoopEvent):
+                subs.append({"loop": n.uid, "start": n.start_uid, "end": n.end_uid, "breaks": sorted(n.break_uids),
+                             "g": proj(n.sub_graph, False)})
+        return {"nodes": nodes, "edges": sorted([a.uid, b.uid] for a, b in g.edges), "subs": subs}
+    nested = detect_loops(g0)
+    return {"input": inp, "nest": proj(nested, True)}
